@@ -37,7 +37,16 @@ static struct {
 	uint8_t ev[4], evst[4], evmust[4]; uint8_t evnext;	/* per slot of the event queue: value, state, send returned true */
 	int8_t call_f; uint8_t ra_at_call_begin[NFIB];
 	uint8_t settle_over;
+	/* C03: a request must be reflected in the returned time if it was accepted before the scheduler's last
+	 * own write to its state in that pass (the final look at the atomic queue has to come after the scheduler
+	 * has finished changing its queues); later ones may or may not be seen */
+	uint16_t ra_seq, last_write_seq; uint16_t ra_first_seq[NFIB];
 } G;
+static void on_plain_write(int ctx, const char *region, size_t off)
+{
+	(void)off;
+	if (ctx == 0 && G.in_pass && !strcmp(region, "kernel")) G.last_write_seq = G.ra_seq;
+}
 static uint64_t n_ra_ok, n_ra_refused, n_ev_ok, n_ev_refused_claim, n_ev_send_false, n_dispatch, n_events_seen, n_wake_checked, n_wake_lenient, foreign;
 static const char *fname[] = { "H(event handler)", "Y(yielder)", "Z(sleeper)" };
 
@@ -65,11 +74,15 @@ void orc_dispatch(int f, int entered)
 	if (!G.in_pass) report(OWN6, "dispatch-outside-pass", "body of %s runs outside fibre_scheduler_next", fname[f]);
 	if (G.dispatched >= 0) report(OWN6 | OWN1, "multi-dispatch", "two fibre bodies (%s and %s) run in one scheduling pass", fname[G.dispatched], fname[f]);
 	G.dispatched = (int8_t)f;
-	if (!C6.threads) convert_pending_requests();
+	if (!C6.threads && !C6.fine) convert_pending_requests();
+	/* with interrupts placed anywhere, a request for this very fibre that arrived in this pass may have come before or
+	 * after the drain: it is either consumed by this dispatch or still queued - both are fine */
+	int amb = C6.fine && G.ra[f];
 	int has = (G.reason[f] & (R_RUN | R_YIELD)) || G.ra[f] || G.may[f] || G.sticky[f] || (f == F_Z && timer_due());
 	if (!has) report(OWN6 | OWN1, "spurious-dispatch", "%s is dispatched although nothing made it runnable since its last dispatch", fname[f]);
 	G.reason[f] = 0; G.may[f] = 0;
-	if (C6.threads && G.ra[f]) { G.ra[f] = 0; }	/* free threads: the request may or may not have been drained yet */
+	if (C6.threads && G.ra[f]) { G.ra[f] = 0; }
+	if (amb) { G.ra[f] = 0; G.may[f] = 1; }	/* free threads: the request may or may not have been drained yet */
 	if (f == F_Z) G.sleeping = 0;			/* made runnable: the pending timeout is cancelled */
 }
 void orc_body_return(int f, int code)
@@ -97,7 +110,7 @@ void orc_event(int f, int slot, uint8_t a, uint8_t b)
 	if (a != v || b != (uint8_t)~v) report(OWN6, "event-content", "the handler fibre received %02x %02x in slot %d, the sender wrote %02x %02x", a, b, slot, v, (uint8_t)~v);
 	G.evst[slot] = EV_FREE; G.evmust[slot] = 0; G.evnext = (uint8_t)((G.evnext + 1) % C6.evq_depth);
 }
-void orc_pass_begin(int i, uint32_t t) { (void)i; G.in_pass = 1; G.dispatched = -1; G.pass_t = t; vs_trace("pass %d: fibre_scheduler_next(%u)", i, t); }
+void orc_pass_begin(int i, uint32_t t) { (void)i; G.in_pass = 1; G.dispatched = -1; G.pass_t = t; G.last_write_seq = G.ra_seq; vs_trace("pass %d: fibre_scheduler_next(%u)", i, t); }
 void orc_pass_end(int i, uint32_t t, uint32_t wake, int self)
 {
 	(void)i;
@@ -106,7 +119,11 @@ void orc_pass_end(int i, uint32_t t, uint32_t wake, int self)
 	if (self != G.dispatched) report(OWN1, "self", "fibre_self() names %d after a pass that dispatched %d", self, G.dispatched);
 	/* C03: the wake-up time */
 	int runnable = 0, lenient = 0;
-	for (int f = 0; f < NFIB; f++) { if ((G.reason[f] & (R_RUN | R_YIELD)) || G.ra[f]) runnable = 1; if (G.may[f]) lenient = 1; }
+	for (int f = 0; f < NFIB; f++) {
+		if (G.reason[f] & (R_RUN | R_YIELD)) runnable = 1;
+		if (G.ra[f]) { if ((int16_t)(G.ra_first_seq[f] - G.last_write_seq) <= 0) runnable = 1; else lenient = 1; }
+		if (G.may[f]) lenient = 1;
+	}
 	if (timer_due()) runnable = 1;	/* the sleeper's timeout expired in this pass: it sits in the run queue */
 	uint32_t exp = runnable ? t : G.sleeping ? G.due : t + 0x7fffffffu;
 	if (C6.threads) return;
@@ -143,14 +160,14 @@ void orc_main_call(int act, int begin, int result)
 		(void)result;
 		break;
 	case MA_RA_H:
-		if (result) { G.ra[F_H]++; n_ra_ok++; } else n_ra_refused++;
+		if (result) { G.ra_seq++; if (!G.ra[F_H]) G.ra_first_seq[F_H] = G.ra_seq; G.ra[F_H]++; n_ra_ok++; } else n_ra_refused++;
 		break;
 	}
 }
 void orc_ra(int f, bool ok)
 {
 	vs_trace("interrupt side: fibre_run_atomic(%s) -> %d", fname[f], ok);
-	if (ok) { n_ra_ok++; if (G.ra[f] < 200) G.ra[f]++; if (C6.threads) G.sticky[f] = 1; } else n_ra_refused++;
+	if (ok) { n_ra_ok++; G.ra_seq++; if (!G.ra[f]) G.ra_first_seq[f] = G.ra_seq; if (G.ra[f] < 200) G.ra[f]++; if (C6.threads) G.sticky[f] = 1; } else n_ra_refused++;
 }
 void orc_ev_claimed(uint8_t v, int slot)
 {
@@ -165,7 +182,7 @@ void orc_ev_sent(int slot, bool ok)
 	vs_trace("interrupt side: fibre_eventq_send(slot %d) -> %d", slot, ok);
 	/* the handler fibre may already have consumed it (free threads) */
 	if (G.evst[slot] == EV_SENDING) { G.evst[slot] = EV_SENT; G.evmust[slot] = ok; }
-	if (ok) { n_ev_ok++; if (G.ra[F_H] < 200) G.ra[F_H]++; if (C6.threads) G.sticky[F_H] = 1; } else n_ev_send_false++;
+	if (ok) { n_ev_ok++; G.ra_seq++; if (!G.ra[F_H]) G.ra_first_seq[F_H] = G.ra_seq; if (G.ra[F_H] < 200) G.ra[F_H]++; if (C6.threads) G.sticky[F_H] = 1; } else n_ev_send_false++;
 }
 void orc_queue_problem(const char *what) { report(OWN6, "queue-corrupted", "%s", what); }
 void orc_threads_done_wait_begin(void) { vs_trace("main loop waits for the interrupt-side threads"); }
@@ -184,6 +201,7 @@ static void scn_init(void)
 	c6_register_regions();
 	vs_region(&G, sizeof(G), VS_GHOST, "ghost");
 	for (int i = 0; i < C6.prefill_aq; i++) G.ra[F_Y]++;
+	vs_plain_write_hook = on_plain_write;
 }
 static void scn_end(void)
 {
@@ -205,7 +223,7 @@ static void build(const c06_cfg *c)
 	for (int i = 0; i < c->passes; i++) n += snprintf(sname + n, sizeof(sname) - (size_t)n, "%d", c->main_act[i]);
 	n += snprintf(sname + n, sizeof(sname) - (size_t)n, "-h");
 	for (int i = 0; i < c->nh; i++) n += snprintf(sname + n, sizeof(sname) - (size_t)n, "%d", c->hk[i]);
-	snprintf(sname + n, sizeof(sname) - (size_t)n, "-n%d-t%d-b%d-q%d-a%d", c->nest, c->threads, c->bound, c->evq_depth, c->prefill_aq);
+	snprintf(sname + n, sizeof(sname) - (size_t)n, "-n%d-t%d-b%d-q%d-a%d-f%d", c->nest, c->threads, c->bound, c->evq_depth, c->prefill_aq, c->fine);
 	S.name = sname; S.init = scn_init; S.at_end = scn_end; S.horizon = 20000; S.max_nesting = c->nest;
 	S.nthreads = 1; S.thread_fn[0] = c6_main;
 	if (c->threads) { for (int i = 0; i < c->nh; i++) { S.thread_fn[S.nthreads] = c6_thread_irq; S.thread_arg[S.nthreads++] = (void *)(intptr_t)i; } }
@@ -215,9 +233,9 @@ static int parse(const char *sn, c06_cfg *c)
 {
 	char m[16], h[16];
 	memset(c, 0, sizeof(*c));
-	if (sscanf(sn, "p%d-s%d-y%d-z%d-m%15[0-9]-h%15[0-9]-n%d-t%d-b%d-q%d-a%d", &c->passes, &c->start_mask, &c->ny, &c->zdelta, m, h, &c->nest, &c->threads, &c->bound, &c->evq_depth, &c->prefill_aq) != 11) {
+	if (sscanf(sn, "p%d-s%d-y%d-z%d-m%15[0-9]-h%15[0-9]-n%d-t%d-b%d-q%d-a%d-f%d", &c->passes, &c->start_mask, &c->ny, &c->zdelta, m, h, &c->nest, &c->threads, &c->bound, &c->evq_depth, &c->prefill_aq, &c->fine) != 12) {
 		/* no handlers: the %[ conversion for h fails */
-		if (sscanf(sn, "p%d-s%d-y%d-z%d-m%15[0-9]-h-n%d-t%d-b%d-q%d-a%d", &c->passes, &c->start_mask, &c->ny, &c->zdelta, m, &c->nest, &c->threads, &c->bound, &c->evq_depth, &c->prefill_aq) != 10) return 0;
+		if (sscanf(sn, "p%d-s%d-y%d-z%d-m%15[0-9]-h-n%d-t%d-b%d-q%d-a%d-f%d", &c->passes, &c->start_mask, &c->ny, &c->zdelta, m, &c->nest, &c->threads, &c->bound, &c->evq_depth, &c->prefill_aq, &c->fine) != 11) return 0;
 		h[0] = 0;
 	}
 	for (int i = 0; m[i]; i++) c->main_act[i] = m[i] - '0';
@@ -265,6 +283,15 @@ static void enumerate(void)
 				}
 			}
 		}
+		/* interrupts placed before every shared-memory access of the main context, not only before its atomic
+		 * operations: a request that arrives after the scheduler's last look at the atomic queue but before it has
+		 * finished changing its own state must still be reflected in the returned time (C03), and must not be lost (C06) */
+		for (int k1 = 0; k1 < HK_KINDS; k1++) {
+			c.nh = 1; c.hk[0] = k1; c.nest = 1; c.threads = 0; c.bound = -1; c.evq_depth = 2; c.prefill_aq = 0; c.fine = 1;
+			cfgs[ncfg++] = c;
+			if (th) for (int k2 = 0; k2 < HK_KINDS; k2++) { c.nh = 2; c.hk[1] = k2; c.bound = 2; cfgs[ncfg++] = c; }
+		}
+		c.fine = 0;
 		/* event queue of depth 1 (claims get refused) and a nearly full atomic run queue (requests get refused) */
 		c.nh = 2; c.nest = 2; c.threads = 0; c.bound = -1;
 		c.hk[0] = HK_EV1; c.hk[1] = HK_EV2; c.evq_depth = 1; c.prefill_aq = 0; cfgs[ncfg++] = c;
@@ -289,6 +316,7 @@ int main(int argc, char **argv)
 		if (sn && parse(sn, &c)) {
 			build(&c);
 			O.bound = c.bound;
+			if (c.fine) { O.fine_grained = 1; O.race_detect = 0; }
 			const char *fg = vx_replay_field(rp, "fine_grained");
 			if (fg && fg[0] == '1') { O.fine_grained = 1; O.race_detect = 0; }
 			const char *ch = strstr(rp, "choices=");
@@ -302,7 +330,10 @@ int main(int argc, char **argv)
 		if (!vx_mine((uint64_t)i)) continue;
 		if (vx_deadline_passed()) { vx_and("exhaustive", 0); vx_count("scenarios_skipped_deadline", 1); continue; }
 		build(&cfgs[i]);
+		if (getenv("C06_ONLY") && !strstr(S.name, getenv("C06_ONLY"))) continue;	/* debugging aid */
 		O.bound = cfgs[i].bound;
+		vs_options Osave = O;
+		if (cfgs[i].fine) { O.fine_grained = 1; O.race_detect = 0; }
 		double t_scn = vx_now();
 		vs_explore(&S, &O, &st);
 		if (st.racy) {
@@ -312,13 +343,15 @@ int main(int argc, char **argv)
 			vs_explore(&S, &F, &st);
 		}
 		if (vx_now() - t_scn > 4.0) vx_note("slow scenario %s: %.1f s, %llu states", S.name, vx_now() - t_scn, (unsigned long long)st.states);
+		O = Osave;
 		vx_count("scenarios", 1);
+		if (cfgs[i].fine) vx_count("scenarios_fine_grained_placement", 1);
 		if (cfgs[i].threads) vx_count("scenarios_free_threads", 1); else vx_count("scenarios_nested_interrupts", 1);
 		vx_count("states", st.states); vx_count("transitions", st.steps + st.interrupts_injected + st.atomic_ops); vx_count("traces", st.executions);
 		vx_count("distinct", st.states);
 		vx_count("executions", st.executions); vx_count("executions_completed", st.completed); vx_count("executions_pruned_at_visited_state", st.pruned);
 		vx_count("atomic_operations_executed", st.atomic_ops); vx_count("plain_accesses_checked", st.plain_accesses);
-		vx_count("interrupts_injected", st.interrupts_injected); vx_count("preemptions", st.preemptions); vx_count("spin_blocks", st.spin_blocks);
+		vx_count("interrupts_injected", st.interrupts_injected); vx_count("placement_points_at_plain_accesses", st.fine_points); vx_count("preemptions", st.preemptions); vx_count("spin_blocks", st.spin_blocks);
 		vx_max("max_choice_points_in_one_execution", st.max_depth);
 		vx_and("exhaustive", cfgs[i].bound < 0 ? st.bound_completed == 1000000 : st.bound_completed == cfgs[i].bound);
 		if (st.capped) vx_note("scenario %s not finished before the deadline (bound completed: %d)", S.name, st.bound_completed);
